@@ -361,14 +361,26 @@ func genNextHost(r *hx.Rand) httpIn {
 	}
 	path := genReqPath(r, "")
 	in.Target = strings.NewReplacer(" ", "%20", "\"", "%22", "<", "%3C", "#", "%23").Replace(path + genQuery(r))
-	keys := []string{name, name + port, name + ":8080", strings.ToUpper(name), "*." + strings.SplitN(name, ".", 2)[1], "*" + name[1:], "*" + port, ""}
-	for i := len(keys) - 1; i > 0; i-- {
-		j := r.Intn(i + 1)
-		keys[i], keys[j] = keys[j], keys[i]
+	// keys that can match this request (the name with and without the default port, wildcards, the host-less routes) …
+	good := []string{name, name + port, "*." + strings.SplitN(name, ".", 2)[1], "*" + name[1:], "*" + port, ""}
+	// … and keys that cannot (another port, another name, the other scheme's default port)
+	other := []string{name + ":8080", "other.org", strings.ToUpper(name) + ":8443", "*.org"}
+	var keys []string
+	for len(keys) < 4 {
+		pool := &good
+		if r.Chance(1, 5) {
+			pool = &other
+		}
+		if len(*pool) == 0 {
+			continue
+		}
+		j := r.Intn(len(*pool))
+		keys = append(keys, (*pool)[j])
+		*pool = append((*pool)[:j:j], (*pool)[j+1:]...)
 	}
 	n := 2 + r.Intn(3)
 	for i := 0; i < n; i++ {
-		ri := routeIn{Src: keys[i] + r.Pick([]string{"/", "/", "/", "/foo", "/a"})}
+		ri := routeIn{Src: keys[i] + r.Pick([]string{"/", "/", "/", "/", "/", "/foo", "/a"})}
 		switch r.Intn(8) {
 		case 0, 1, 2: // a redirect to the request's own scheme: a self-redirect when host and path come out the same
 			ri.Tmpl = own + "://" + r.Pick([]string{"$host", "$host", in.Host, name}) + r.Pick([]string{"$path", "$path", "/$path", "/"})
